@@ -65,6 +65,8 @@ func runC18(p *core.Prog, r *core.Result) {
 		"R18.1 typestate of one evaluation on every path: up-to-date | evaluating·succeeded | evaluating·failed | failed | (no event only on the return taken because a dependency failed); the body runs only between evaluating and the terminal event; succeeded never on an error edge",
 		"R18.2 target events are emitted only by (*runTarget).Evaluate; run-done exactly once, after the runner returned, with the error that Run returns",
 		"R18.7 sibling agreement of the Events implementations: a method that encodes the event kind as a string uses its own name, never the name of another event",
+		"R18.10 the sink behind run(callback=...) delivers every event it was sent: its delivery loop ends only when the event channel has been closed and drained, and Close closes that channel",
+		"R18.9 an Events implementation that wraps another one (dot and JSON renderers) forwards each event exactly once, on every path, to the same-named method of the wrapped one with its own arguments",
 		"R18.8 target output goes to the observer of the run: if Project.events can be replaced after load (run(callback=...)), every line writer is bound to the project and reads the current Events at delivery time instead of the one captured at load",
 		"R18.6 the partial-line buffer never retains (a slice of) the caller's chunk: it only grows by copying appends",
 		"R18.5 lineWriter.Write conserves bytes: the unconsumed chunk is cut only at its first newline (c[:nl], c[nl+1:]); the rest becomes the next cursor; per newline exactly one line is delivered - c[:nl] alone only where the buffer is known empty, otherwise the buffer after c[:nl] was appended; without a newline the whole rest is buffered",
@@ -543,6 +545,12 @@ func runC18(p *core.Prog, r *core.Result) {
 
 	// ---- R18.7 every Events implementation that encodes the kind of an event names it after the method
 	checkEventKinds(p, r)
+
+	// ---- R18.10 the run(callback=...) sink delivers everything it was sent
+	checkRunEventsDrain(p, r)
+
+	// ---- R18.9 wrapping renderers forward every event, once, to the same event of the renderer they wrap
+	checkRendererForwarding(p, r)
 
 	// ---- R18.8 output is delivered to the observer of the run
 	checkOutputSink(p, r)
@@ -1198,4 +1206,149 @@ func checkOutputSink(p *core.Prog, r *core.Result) {
 		}
 	}
 	r.Floor("R18.8", nSink, 1, "deliveries of lineWriter")
+}
+
+
+// checkRendererForwarding implements R18.9.
+func checkRendererForwarding(p *core.Prog, r *core.Result) {
+	names := eventsMethods(p)
+	n := 0
+	for _, fn := range p.ModuleFuncs() {
+		if fn.Signature.Recv() == nil || !names[fn.Name()] || fn.Blocks == nil || len(fn.Params) == 0 {
+			continue
+		}
+		// the wrapped renderer: a field of the receiver whose type has all Events methods, invoked in this method
+		recv := fn.Params[0]
+		var fwd []*ssa.Call
+		for _, c := range core.Calls(fn) {
+			call, ok := c.(*ssa.Call)
+			if !ok || !call.Call.IsInvoke() || !names[call.Call.Method.Name()] {
+				continue
+			}
+			ld, ok := call.Call.Value.(*ssa.UnOp)
+			if !ok {
+				continue
+			}
+			fa, ok := ld.X.(*ssa.FieldAddr)
+			if !ok || fa.X != ssa.Value(recv) {
+				continue
+			}
+			fwd = append(fwd, call)
+		}
+		// is this a wrapper type at all? (some method of the type forwards)
+		if len(fwd) == 0 {
+			wraps := false
+			rt := fn.Signature.Recv().Type()
+			for _, g := range p.ModuleFuncs() {
+				if g.Signature.Recv() == nil || !types.Identical(g.Signature.Recv().Type(), rt) || !names[g.Name()] || g.Blocks == nil || len(g.Params) == 0 {
+					continue
+				}
+				for _, c := range core.Calls(g) {
+					if call, ok := c.(*ssa.Call); ok && call.Call.IsInvoke() && names[call.Call.Method.Name()] {
+						if ld, ok := call.Call.Value.(*ssa.UnOp); ok {
+							if fa, ok := ld.X.(*ssa.FieldAddr); ok && fa.X == ssa.Value(g.Params[0]) {
+								wraps = true
+							}
+						}
+					}
+				}
+			}
+			if !wraps {
+				continue
+			}
+		}
+		n++
+		construct := fname(fn) + "#forwards"
+		pos := p.Pos(fn.Pos())
+		switch {
+		case len(fwd) == 0:
+			r.Bad("R18.9", construct, pos, "%s is not forwarded to the wrapped renderer: the terminal output loses this event (e.g. a target stays 'running' for ever)", fn.Name())
+		case len(fwd) > 1:
+			r.Bad("R18.9", construct, p.InstrPos(fwd[1]), "%s is forwarded %d times", fn.Name(), len(fwd))
+		case fwd[0].Call.Method.Name() != fn.Name():
+			r.Bad("R18.9", construct, p.InstrPos(fwd[0]), "%s is forwarded as %s", fn.Name(), fwd[0].Call.Method.Name())
+		default:
+			okArgs := len(fwd[0].Call.Args) == len(fn.Params)-1
+			for i, a := range fwd[0].Call.Args {
+				if i+1 < len(fn.Params) && a != ssa.Value(fn.Params[i+1]) && !isLoadOfParamSpill(a, fn.Params[i+1]) {
+					okArgs = false
+				}
+			}
+			skipped := false
+			for _, ret := range core.ReturnsOf(fn) {
+				if core.BlockReachesAvoiding(fn.Blocks[0], ret, func(in ssa.Instruction) bool { return in == ssa.Instruction(fwd[0]) }) {
+					skipped = true
+				}
+			}
+			r.Check(okArgs && !skipped, "R18.9", construct, p.InstrPos(fwd[0]), "forwarded once, on every path, with its own arguments", "the event is forwarded with different arguments or not on every path")
+		}
+	}
+	r.Floor("R18.9", n, 10, "events of wrapping renderers")
+}
+
+
+// checkRunEventsDrain implements R18.10: events are handed to the callback by a goroutine that receives from a
+// channel. Whatever the buffering, nothing sent before Close may be dropped: the loop may only end on "channel closed
+// and empty" (the comma-ok receive reported false / a range loop finished), and Close must close that channel.
+func checkRunEventsDrain(p *core.Prog, r *core.Result) {
+	proc := p.Func("", "runEvents", "process")
+	cls := p.Func("", "runEvents", "Close")
+	if proc == nil || cls == nil {
+		r.Unk("R18.10", "anchor:dawn.runEvents.process/Close", "-", "not found")
+		return
+	}
+	isEventChan := func(v ssa.Value) bool { return core.LoadOfField(v, pkgRoot, "runEvents", "c") }
+	// receives on the event channel in process
+	var recvOK []ssa.Value
+	nRecv := 0
+	core.Instrs(proc, func(in ssa.Instruction) {
+		u, ok := in.(*ssa.UnOp)
+		if !ok || u.Op != token.ARROW || !isEventChan(u.X) {
+			return
+		}
+		nRecv++
+		if u.CommaOk {
+			for _, ref := range *u.Referrers() {
+				if e, ok := ref.(*ssa.Extract); ok && e.Index == 1 {
+					recvOK = append(recvOK, e)
+				}
+			}
+		}
+	})
+	// selects: a select that can take another channel gives another way out
+	core.Instrs(proc, func(in ssa.Instruction) {
+		if sel, ok := in.(*ssa.Select); ok {
+			for _, st := range sel.States {
+				if st.Dir == types.RecvOnly && isEventChan(st.Chan) {
+					nRecv++
+				}
+			}
+		}
+	})
+	r.Floor("R18.10", nRecv, 1, "receives from the event channel in process")
+	n := 0
+	for _, ret := range core.ReturnsOf(proc) {
+		n++
+		drained := p.FactsAt(ret).Find(func(c ssa.Value, v bool) bool {
+			if v {
+				return false
+			}
+			for _, okv := range recvOK {
+				if c == okv {
+					return true
+				}
+			}
+			return false
+		})
+		r.Check(drained, "R18.10", fmt.Sprintf("dawn.(*runEvents).process#ends-when-drained-%d", n), p.InstrPos(ret), "the delivery loop ends only after a receive reported the event channel closed and empty", "the delivery loop can end while events are still queued in the channel (another way out than 'closed and drained'): events sent just before Close - RunDone, the completion of the last targets - are never handed to the callback")
+	}
+	closes := false
+	core.Instrs(cls, func(in ssa.Instruction) {
+		if c, ok := in.(*ssa.Call); ok {
+			if b, isB := c.Call.Value.(*ssa.Builtin); isB && b.Name() == "close" && len(c.Call.Args) == 1 && isEventChan(c.Call.Args[0]) {
+				closes = true
+			}
+		}
+	})
+	r.Check(closes, "R18.10", "dawn.(*runEvents).Close#closes-event-channel", p.Pos(cls.Pos()), "Close closes the event channel, which lets the delivery loop drain it and stop", "Close does not close the event channel: the delivery loop cannot know when everything has been delivered")
 }
